@@ -166,6 +166,33 @@ Proof. exact rw_str_contains_fresh. Qed.
 Print Assumptions rw_str_contains_freshness.
 
 (* the other four introduce no declaration *)
+(* BVMergeReducedBW proposes nothing when the inner definition (the one node[-1][-1] names) refers to itself,
+   directly or not (is_recursive_defined_fun): whenever the mutator answers at all ... *)
+Theorem rw_bv_merge_bw_skips_recursive : forall gs defs here e n l,
+  rw_bv_merge_bw gs defs here e = Some l ->
+  last_of_last e = LLnode n ->
+  (match n with L s => is_recursive defs s | T (L h :: _) => is_recursive defs h | _ => false end) = true ->
+  l = [].
+Proof. exact rw_bv_merge_bw_skips_recursive_proof. Qed.
+Print Assumptions rw_bv_merge_bw_skips_recursive.
+
+(* ... for an inner definition named by a leaf ... *)
+Theorem rw_bv_merge_bw_skips_recursive_leaf : forall gs defs here e s l,
+  rw_bv_merge_bw gs defs here e = Some l -> last_of_last e = LLnode (L s) -> is_recursive defs s = true -> l = [].
+Proof. exact rw_bv_merge_bw_skips_recursive_leaf_proof. Qed.
+Print Assumptions rw_bv_merge_bw_skips_recursive_leaf.
+
+(* ... and with the earlier guards spelled out: the answer is the empty list (no exception) *)
+Theorem rw_bv_merge_bw_recursive_guard : forall gs defs here h n1 n2 nsort rest so b1 b2 z1 n,
+  let e := T (h :: n1 :: n2 :: nsort :: rest) in
+  is_op e "define-fun" = true -> len n2 = 0%nat -> gs n1 = Some so -> is_bv_sort so = true ->
+  zext_def defs n1 = Some (Some b1) -> last_of_last e = LLnode n -> zext_def defs n = Some (Some b2) ->
+  zext_amount b1 = Some z1 ->
+  (match n with L s => is_recursive defs s | T (L h :: _) => is_recursive defs h | _ => false end) = true ->
+  rw_bv_merge_bw gs defs here e = Some [].
+Proof. exact rw_bv_merge_bw_recursive_guard_proof. Qed.
+Print Assumptions rw_bv_merge_bw_recursive_guard.
+
 Theorem rw_bv_merge_bw_no_declaration : forall gs defs here e l g,
   rw_bv_merge_bw gs defs here e = Some l -> In g l -> gs_fresh g = [].
 Proof. exact rw_bv_merge_bw_nofresh. Qed.
@@ -278,6 +305,15 @@ Theorem merge_bw_example :
   = Some [GS [([2]%nat, Some (T [lf "define-fun"; lf "w"; T []; bv "8"; zx "6" (lf "__w")]))] [] []].
 Proof. exact ex_merge_bw. Qed.
 Print Assumptions merge_bw_example.
+
+(* the inner definition is recursive: a := ((_ zero_extend 2) a), b := ((_ zero_extend 1) a); nothing for the definition of b *)
+Theorem merge_bw_recursive_example :
+  is_recursive defs_rec (lit "a") = true /\
+  last_of_last (T [lf "define-fun"; lf "b"; T []; bv "8"; zx "1" (lf "a")]) = LLnode (lf "a") /\
+  rw_bv_merge_bw (one_sort (lf "b") (bv "8")) defs_rec [1]%nat (T [lf "define-fun"; lf "b"; T []; bv "8"; zx "1" (lf "a")])
+  = Some [].
+Proof. exact ex_merge_bw_recursive. Qed.
+Print Assumptions merge_bw_recursive_example.
 
 Theorem str_contains_example :
   rw_str_contains (names []) (T [lf "str.contains"; lf "s"; lf "t"])
